@@ -10,7 +10,7 @@ PROP = "C13"
 RULE = ("exhaustive decision table computed by TLC from the TLA+ transcription of the 21 documented contracts: every function (and one "
         "unknown name) x every argument tuple of length 0-2 over the full value pool (every Value variant, nested lists/sets, 0, 1, "
         "65536, 2^32-1, strings with braces, regex metacharacters and non-ASCII text, syntax and graph nodes), length 3 (thorough: 4) "
-        "over a core pool, plus every syntax function x every node of the pool tree; each row is replayed as one real call; "
+        "over a core pool, plus every syntax function x every node of several trees (unicode, ERROR and MISSING nodes, comments, empty and blank files, deep nesting); each row is replayed as one real call; "
         "non-trivial = the call is well-typed enough to reach the function body (result ok, or an error other than arity)")
 
 U32MAX = 4294967295
@@ -29,8 +29,11 @@ def pools(tier):
             V.vlist(V.vstr("a"), V.vstr("b")), V.vlist(), {"t": "syn", "n": 3}, V.vgn(0)]
     core4 = [V.vbool(False), V.vint(2), V.vint(U32MAX), V.vstr("{}-{}-{}"), V.vstr("x"), V.vlist(V.vint(7))]
     if tier == "thorough":
-        return {"full": full, "core": full, "core4": core, "src": 3, "maxlen": 4}
-    return {"full": full, "core": core[:13] + core[14:], "core4": core4, "src": 3, "maxlen": 3}
+        return {"full": full, "core": full, "core4": core, "src": 3, "srcs": list(range(1, A.n_sources() + 1)), "maxlen": 4}
+    # trees for the syntax functions: the pool tree, unicode, errors and missing nodes, empty, comments, blank, deep, mixed
+    names = A.source_names()
+    want = [i + 1 for i, nm in enumerate(names) if any(k in nm for k in ("s02_", "s09_", "s11_", "s12_", "s15_", "s17a_", "s17c_", "s17d_", "s17e_"))]
+    return {"full": full, "core": core[:13] + core[14:], "core4": core4, "src": 3, "srcs": sorted(set([3] + want)), "maxlen": 3}
 
 
 def canon(v):
@@ -50,7 +53,7 @@ def run(tier):
     if not C.tlc_ok(stats):
         raise C.ToolError("MCStdlib failed: %s" % stats["errors"][:3])
     rows = recs.get("REPLAY", [])
-    calls = [{"fn": r["fn"], "args": r["args"], "src": pool["src"], "pre_nodes": 2, "exp": r} for r in rows]
+    calls = [{"fn": r["fn"], "args": r["args"], "src": r.get("src", pool["src"]), "pre_nodes": 2, "exp": r} for r in rows]
     cin, cout = os.path.join(d, "calls.ndjson"), os.path.join(d, "calls.out.ndjson")
     C.write_ndjson(cin, calls)
     with open(os.devnull, "w") as devnull:
